@@ -44,7 +44,10 @@ RULE = ("generated: per communicator size R in 1..8 and length L (0, 1, R-1, R, 
         "of the same kind through the same code on sub-communicators of another size built with MPI_Comm_split (colour = world rank parity, or "
         "rank < n-1 versus the last rank) before the world run (for a third of them after it); every communicator's part is judged with the same "
         "oracle and model comparison; "
-        "a case = (R, L, layout, routing, buffer, schedule seed, script[, sub-communicator split, order and scenarios]); non-trivial = at least one update")
+        "environment dimension rotated over the cases: YGM_COMM_ISSEND_FREQ in {default, 0, 1, 8}, YGM_COMM_NUM_IRECVS in {default, 1, 2, 8}, "
+        "YGM_COMM_NUM_ISENDS_WAIT in {default, 0, 1, 4}, cyclic placement of ranks on nodes for a third of the multi-node cases; thorough tier: "
+        "65535 scratch arrays of the same type constructed before a second array that is then updated next to the first; "
+        "a case = (R, L, layout, routing, buffer, env knobs, schedule seed, script[, sub-communicator split, order and scenarios]); non-trivial = at least one update")
 
 M64 = (1 << 64) - 1
 FAMILIES = {"add": ["p", "m", "+", "-"], "mul": ["x"], "and": ["a"], "or": ["o"], "xor": ["e"], "land": ["A"], "lor": ["O"]}
@@ -242,16 +245,34 @@ def gen_case(rng, R, L, blocks, kind):
             ops += ["F", "T 1", "F", "T 0"]
     nodes, ppn = rng.choice(layouts(R))
     return {"ranks": R, "len": L, "dv": dv, "script": ";".join(ops), "nodes": nodes, "ppn": ppn,
-            "routing": rng.choice(ROUTES), "buffer_kb": (rng.choice([0, 0, 0, None]) if kind == "resize" else rng.choice([0, 0, 1, None])),
+            "routing": rng.choice(ROUTES), "buffer_kb": (rng.choice([0, 0, 1, None]) if kind == "resize" else rng.choice([0, 0, 1, None])),
             "sim_seed": rng.randrange(1, 1 << 30),
             "policy": (rng.choice(["racer", "late", "burst", "uniform", "starve"]) if kind == "resize" else rng.choice(POLICIES)),
             "kind": kind, "updates": nupd, "resizes": nres, "emits": nemit}
+
+
+KNOBS = ("issend_freq", "num_irecvs", "isends_wait", "placement", "sim_env", "max_steps")
+
+
+def env_knobs(case, k):
+    """environment dimension, rotated over the cases (deterministic in the case index k, recorded in the case):
+    YGM_COMM_ISSEND_FREQ / NUM_IRECVS / NUM_ISENDS_WAIT (None = library default 8 / 8 / 4) and cyclic placement of ranks on nodes"""
+    case["issend_freq"] = [None, 0, 1, 8][k % 4]
+    case["num_irecvs"] = [None, 1, 2, 8][(k // 2) % 4]
+    case["isends_wait"] = [None, 0, 1, 4][(k // 3) % 4]
+    # cyclic placement only where the block arithmetic of the sub-communicator splits is not needed
+    case["placement"] = "cyclic" if (case["nodes"] > 1 and case["ppn"] > 1 and not case.get("sub") and k % 3 == 0) else None
 
 
 def run_real(binary, case, sim_seed=None, policy=None):
     env = {"YGM_COMM_ROUTING": case["routing"]}
     if case["buffer_kb"] is not None:
         env["YGM_COMM_BUFFER_SIZE_KB"] = case["buffer_kb"]
+    for key, var in (("issend_freq", "YGM_COMM_ISSEND_FREQ"), ("num_irecvs", "YGM_COMM_NUM_IRECVS"), ("isends_wait", "YGM_COMM_NUM_ISENDS_WAIT"),
+                     ("placement", "SIMMPI_PLACEMENT")):
+        if case.get(key) is not None:
+            env[var] = case[key]
+    env.update(case.get("sim_env") or {})
     args = ["array", case["len"], case["dv"], case["script"]]
     sub = case.get("sub")
     if sub:      # the same scenario code first (or afterwards) on a sub-communicator of another size, in the same process
@@ -260,7 +281,8 @@ def run_real(binary, case, sim_seed=None, policy=None):
             args += [size, f"array|{u['len']}|{u['dv']}|{u['script']}"]
         args.append(f"array|{case['len']}|{case['dv']}|{case['script']}")
     return C.run_sim(binary, args, nodes=case["nodes"], ppn=case["ppn"], env=env,
-                     sim_seed=sim_seed or case["sim_seed"], policy=policy or case["policy"], want_log=False, timeout=120)
+                     sim_seed=sim_seed or case["sim_seed"], policy=policy or case["policy"], want_log=False,
+                     timeout=900 if case.get("max_steps") else 120, **({"max_steps": case["max_steps"], "livelock": case["max_steps"]} if case.get("max_steps") else {}))
 
 
 class Sec:
@@ -355,6 +377,9 @@ def case_id(case):
     cid = {k: case[k] for k in ("ranks", "len", "dv", "script", "nodes", "ppn", "routing", "buffer_kb", "sim_seed", "policy")}
     if case.get("sub"):
         cid["sub"] = case["sub"]
+    for key in KNOBS:
+        if case.get(key) is not None:
+            cid[key] = case[key]
     return cid
 
 
@@ -362,7 +387,7 @@ def model_line(case):
     toks = []
     for op in case["script"].split(";"):
         f = op.split()
-        if f[0] in ("B",):
+        if f[0] in ("B", "K"):
             continue
         if f[0] in ("F", "V", "C"):
             toks.append(f[0])
@@ -399,7 +424,7 @@ def oracle_expected(case):
     cur, dumps = 0, []
     for op in case["script"].split(";"):
         f = op.split()
-        if f[0] == "B":
+        if f[0] in ("B", "K"):
             continue
         if f[0] == "C":
             arrs[1] = [list(v) for v in arrs[0]]; dvs[1] = dvs[0]
@@ -528,7 +553,14 @@ def run(tier, seed, model_ok=True):
             u = gen_case(rng2, size, rng2.choice([L, max(L - 1, 0), size - 1, 2 * size + 1]), None, "phases" if kind == "seq" else kind)
             return {"len": u["len"], "dv": u["dv"], "script": u["script"]}
         add_sub(case, k, gen_unit)
+        env_knobs(case, k)
         cases.append(case)
+    if tier != "quick":
+        # more than 65535 arrays of one type constructed before the array under test (ygm_ptr slots only grow): ~80 s, thorough tier only.
+        # array 0 takes slot 0, 65535 scratch arrays follow, array 1 gets slot 65536; both stay alive and are updated alternately
+        cases.append({"ranks": 2, "len": 5, "dv": 1, "script": "F;K 65535;N 7 9;T 1;s 0 3 8;p 1 6 4;+ 0 0;F;T 0;F;p 1 4 2;F;T 1;F", "nodes": 1, "ppn": 2,
+                      "routing": "NONE", "buffer_kb": None, "sim_seed": 7, "policy": "uniform", "kind": "many-arrays", "updates": 4, "resizes": 0, "emits": 0,
+                      "sim_env": {"SIMMPI_ICOLL_IDLE": 10 ** 9}, "max_steps": 10 ** 9})
     allunits = [u for c in cases for u in units(c)]
     allm = C.model("array", [model_line(u) for u in allunits]) if model_ok else [None] * len(allunits)
     mouts, pos = [], 0
@@ -556,6 +588,10 @@ def run(tier, seed, model_ok=True):
         res.count("kind=" + case["kind"])
         res.count("routing=" + case["routing"])
         res.count("buffer_kb=" + str(case["buffer_kb"]))
+        res.count("env:issend_freq=%s" % case.get("issend_freq")); res.count("env:num_irecvs=%s" % case.get("num_irecvs"))
+        res.count("env:isends_wait=%s" % case.get("isends_wait"))
+        if case.get("placement"):
+            res.count("placement=cyclic")
         res.count("updates", case["updates"])
         res.count("resizes", case.get("resizes", 0))
         res.count("emitting_for_alls", case.get("emits", 0))
